@@ -425,6 +425,28 @@ func (g *Gen) MultiTemplate(r *rand.Rand) Input {
 // MultiProgram returns a go.mod program set in which one file is hostile.
 func (g *Gen) MultiProgram(r *rand.Rand) Input {
 	in := Input{Kind: "program"}
+	if r.Intn(10) == 0 {
+		// import cycles of 1..4 packages, entered from main after 0..2 other packages
+		n := 1 + r.Intn(4)
+		lead := r.Intn(3)
+		name := func(i int) string { return fmt.Sprintf("p%d", i) }
+		files := []File{{"go.mod", []byte("module cyc\n")}}
+		first := "cyc/" + name(0)
+		files = append(files, File{"main.go", []byte("package main\n\nimport (\n\t\"fmt\"\n\t_ \"" + first + "\"\n)\n\nfunc main() { fmt.Println() }\n")})
+		total := lead + n
+		for i := 0; i < total; i++ {
+			next := i + 1
+			if i == total-1 {
+				next = lead // close the cycle
+			}
+			src := fmt.Sprintf("// é\npackage %s\n\n\timport _ \"cyc/%s\"\n", name(i), name(next))
+			files = append(files, File{name(i) + "/" + name(i) + ".go", []byte(src)})
+		}
+		in.Files = files
+		in.Fam = fmt.Sprintf("multiprog:cycle:%d+%d", lead, n)
+		in.Mut = files[len(files)-1].Name
+		return in
+	}
 	files := []File{{"go.mod", []byte(validGoMod)}, {"main.go", []byte(validGoMain)}, {"pkg/pkg.go", []byte(validGoPkg)}}
 	if len(g.C.ProgSets) > 0 && r.Intn(3) == 0 {
 		s := g.C.ProgSets[r.Intn(len(g.C.ProgSets))]
@@ -521,8 +543,8 @@ func (g *Gen) TruncInputs(r *rand.Rand, nSources, perSource int) []Input {
 type Mix struct {
 	Random, Mutant, TypeErr, MultiT, MultiP, Verbatim int
 	// structured families (structured.go); MaxDepth bounds the Deep family
-	TmplSyntax, Deep, Amp int
-	MaxDepth              int
+	TmplSyntax, Deep, Amp, Wide int
+	MaxDepth                    int
 }
 
 // Batch generates the inputs of a mix, interleaved deterministically.
@@ -531,7 +553,11 @@ func (g *Gen) Batch(r *rand.Rand, m Mix) []Input {
 	if m.MaxDepth <= 0 {
 		m.MaxDepth = 1000
 	}
-	for m.Random+m.Mutant+m.TypeErr+m.MultiT+m.MultiP+m.Verbatim+m.TmplSyntax+m.Deep+m.Amp > 0 {
+	for m.Random+m.Mutant+m.TypeErr+m.MultiT+m.MultiP+m.Verbatim+m.TmplSyntax+m.Deep+m.Amp+m.Wide > 0 {
+		if m.Wide > 0 {
+			out = append(out, g.Wide(r))
+			m.Wide--
+		}
 		if m.TmplSyntax > 0 {
 			out = append(out, g.TemplateSyntax(r))
 			m.TmplSyntax--
